@@ -307,13 +307,26 @@ class TraceCorr:
                                     "errors": [self.work.hook_log[-1500:]]}
             proofs_ok = False
         ops, trace, stats = (os.path.join(self.dir, x) for x in ("ops.txt", "trace.txt", "stats.json"))
-        rc, log = core.sh([self.bin, "-mode", "gen", "-tier", self.tier, "-out", ops] + self.gen_args, env=self.env,
-                          timeout=self.timeout)
-        if rc != 0:
-            res.obligation(cname, False, log=log[-2000:])
-            res.violation("generator failed: " + log[-500:], {"broken": cname}, concrete=False)
-            return False
-        rc, log = self._run_impl(ops, trace, stats)
+        # several driver areas judge the traces of one harness (e.g. `lists`, `llptr`, `slptr`, `alptr`): generate and execute
+        # once per (binary, arguments, environment) and let the later areas read the same ops/trace/stats files — also keeps a
+        # wedged implementation from costing one timeout per area
+        ckey = (self.bin, self.tier, tuple(self.gen_args), tuple(self.run_args), tuple(sorted(self.env.items())))
+        cache = self.work.__dict__.setdefault("_impl_runs", {})
+        hit = cache.get(ckey)
+        if hit is not None:
+            rc, log = hit["rc"], hit["log"]
+            for src, dst in ((hit["ops"], ops), (hit["trace"], trace), (hit["stats"], stats)):
+                if os.path.exists(src):
+                    shutil.copyfile(src, dst)
+        else:
+            rc, log = core.sh([self.bin, "-mode", "gen", "-tier", self.tier, "-out", ops] + self.gen_args, env=self.env,
+                              timeout=self.timeout)
+            if rc != 0:
+                res.obligation(cname, False, log=log[-2000:])
+                res.violation("generator failed: " + log[-500:], {"broken": cname}, concrete=False)
+                return False
+            rc, log = self._run_impl(ops, trace, stats)
+            cache[ckey] = dict(rc=rc, log=log, ops=ops, trace=trace, stats=stats)
         if rc != 0:
             # the implementation crashed or hung outside a recovered call: find the case
             res.obligation(cname, False, log=log[-3000:])
